@@ -181,7 +181,9 @@ def anomaliser(rng, p, dense_events):
     elif u < 0.24:
         hi = float("inf")
     return S("StatThresholdAnomaliser", change_detector=inner,
-             stat={"fn": _choice(rng, ["np.mean", "np.median", "stat_range", "stat_first", "stat_std1"])},
+             stat={"fn": _choice(rng, ["np.mean", "np.median", "stat_range", "stat_first", "stat_std1",
+                                      # the NumPy reducers themselves (a library may special-case these objects)
+                                      "np.std", "np.var", "np.sum", "np.min", "np.max", "np.ptp"])},
              stat_lower=lo, stat_upper=hi), nmin
 
 
